@@ -600,6 +600,16 @@ func maybeRef(tmpl reflect.Type, strct reflect.Value) reflect.Value {
 	return strct
 }
 
+// allStrings reports whether every captured value is a string, ie. token text.
+func allStrings(values []reflect.Value) bool {
+	for _, v := range values {
+		if v.Kind() != reflect.String {
+			return false
+		}
+	}
+	return true
+}
+
 // Set field.
 //
 // If field is a pointer the pointer will be set to the value. If field is a string, value will be
@@ -638,11 +648,14 @@ func setField(tokens []lexer.Token, strct reflect.Value, field structLexerField,
 		return nil
 	}
 
-	if f.CanAddr() {
+	// Capture and TextUnmarshaler receive token text; values produced by sub-productions (@@) are assigned below.
+	captured := allStrings(fieldValue)
+
+	if f.CanAddr() && captured {
 		if d, ok := f.Addr().Interface().(Capture); ok {
 			ifv := make([]string, 0, len(fieldValue))
 			for _, v := range fieldValue {
-				ifv = append(ifv, v.Interface().(string))
+				ifv = append(ifv, v.String())
 			}
 			err = d.Capture(ifv)
 			if err != nil {
@@ -651,7 +664,7 @@ func setField(tokens []lexer.Token, strct reflect.Value, field structLexerField,
 			return nil
 		} else if d, ok := f.Addr().Interface().(encoding.TextUnmarshaler); ok {
 			for _, v := range fieldValue {
-				if err := d.UnmarshalText([]byte(v.Interface().(string))); err != nil {
+				if err := d.UnmarshalText([]byte(v.String())); err != nil {
 					return Wrapf(pos, err, "failed to unmarshal text")
 				}
 			}
@@ -661,13 +674,13 @@ func setField(tokens []lexer.Token, strct reflect.Value, field structLexerField,
 
 	if f.Kind() == reflect.Slice {
 		sliceElemType := f.Type().Elem()
-		if sliceElemType.Implements(captureType) || reflect.PtrTo(sliceElemType).Implements(captureType) {
+		if captured && (sliceElemType.Implements(captureType) || reflect.PtrTo(sliceElemType).Implements(captureType)) {
 			if sliceElemType.Kind() == reflect.Ptr {
 				sliceElemType = sliceElemType.Elem()
 			}
 			for _, v := range fieldValue {
 				d := reflect.New(sliceElemType).Interface().(Capture)
-				if err := d.Capture([]string{v.Interface().(string)}); err != nil {
+				if err := d.Capture([]string{v.String()}); err != nil {
 					return Wrapf(pos, err, "failed to capture")
 				}
 				eltValue := reflect.ValueOf(d)
